@@ -17,7 +17,7 @@
 //   source B|S N T                    section -|S N T                  prop S N nvalues  punit P s:u
 //   h5 ticks A k n d:..   h5 interval A k d:x   h5 nointerval A k      h5 dunit A k s:u  h5 deldim A k
 //   h5 units T n s:u..    h5 nopositions M      h5 noposition T        h5 nodata F       h5 nolink F
-//   h5 notype E           h5 nocreated E
+//   h5 notype E
 //   validate      ->  OK <n> <E|W>:<ordinal|unknown|?id>:<s:hex message> ...   (sorted)
 #include "common.hpp"
 #include <hdf5.h>
@@ -231,7 +231,6 @@ std::string handle(const std::vector<std::string> &t) {
         else if (op == "nodata") h5_unlink(e.path + "/data");
         else if (op == "nolink") h5_del_attr(e.path, "link_type");
         else if (op == "notype") h5_del_attr(e.path, "type");
-        else if (op == "nocreated") h5_del_attr(e.path, "created_at");
         else throw std::logic_error("bad h5 command " + op);
         return "-";
     }
